@@ -924,6 +924,8 @@ class Interp:
             return AList(a.items + [Seg(b.name)])
         if isinstance(a, AList) and isinstance(b, int) and isinstance(op, ast.Mult):
             return AList(a.items * b)
+        if isinstance(b, AList) and isinstance(a, int) and not isinstance(a, bool) and isinstance(op, ast.Mult):
+            return AList(b.items * a)
         if isinstance(a, BV) or isinstance(b, BV):
             if isinstance(op, (ast.LShift, ast.RShift)) and isinstance(a, BV) and isinstance(b, int):
                 return bv_shift(a, b if isinstance(op, ast.LShift) else -b)
